@@ -432,6 +432,8 @@ type Explorer struct {
 	Intrinsics map[string]int64
 	TotalSteps int64
 	MaxViol    int
+	InitialModel map[string]uint64
+	initByName   map[string]uint64
 	summaries  map[summaryKey]*summary
 	inSummary  int
 	countFns   bool
@@ -450,6 +452,11 @@ func NewExplorer(s *Solver) *Explorer {
 }
 
 func varDefault(t *Term) uint64 {
+	if X != nil && X.initByName != nil {
+		if v, ok := X.initByName[t.Name]; ok {
+			return v
+		}
+	}
 	if X != nil {
 		if v, ok := X.defv[t]; ok {
 			return v
@@ -655,6 +662,10 @@ func (x *Explorer) Explore(check func()) {
 	x.prefix = x.prefix[:0]
 	x.model = Model{}
 	first := true
+	if x.InitialModel != nil {
+		// deterministic re-execution of one recorded path: variables take the recorded values
+		x.initByName = x.InitialModel
+	}
 	for first || x.next() {
 		first = false
 		if x.Paths >= x.PathBudget {
